@@ -182,3 +182,29 @@ CHECKS["C19"] = dict(
     assumptions=["default CallerMarshalFunc (file:line)", "runtime.Caller(1) inside here() is the ground truth for 'the user's line'"],
     require=dict(statements_checked=1000),
 )
+
+
+def _c17_stages(tier):
+    common = dict(cmd="c17", shards=16, timeout=3000, crash_is_violation=True)
+    return [dict(variant="vh", crash_witness="/verif/build/c17.current.json.{shard}", **common),
+            dict(variant="vh-bin", crash_witness="/verif/build/c17.current.bin.{shard}", **common)]
+
+
+CHECKS["C17"] = dict(
+    level="exploration",
+    level_text=("runtime monitor around every decoder entry point (Cbor2JsonManyObjects, DecodeIfBinaryToBytes/String, DecodeObjectToStr; in the "
+                "binary build also ConsoleWriter.Write and the journald writer): recover() classifies panics (runtime.Error = violation), the heap "
+                "allocation counter bounds memory per call (64*len+1MiB), a watchdog bounds time, the input is written to disk before each call so a "
+                "process-fatal crash keeps its witness. Inputs: all 16 843 008 strings of 1-3 bytes (exhaustive), a header x length-argument x "
+                "nesting-prefix grid, structure-aware random items, nesting bombs, mutations of valid streams, and every cut point of valid streams "
+                "(prefix output and error/no-error compared with the per-event decode)."),
+    technique="runtime monitoring: panic/allocation/termination oracles around the decoder over exhaustive short inputs, grids, mutations and all cut points",
+    stages=_c17_stages,
+    rule=("one case = one input byte string fed to every entry point (or one cut point of a valid stream). distinct_nontrivial counts distinct mutated "
+          "streams and cut streams with >= 2 events by content hash; the exhaustive 1-3 byte inputs and the grid are counted in counters "
+          "(exhaustive_short_inputs, grid_inputs) - they are distinct by construction"),
+    assumptions=["DecodeObjectToStr has no error result and reports malformed input by panicking with an error value: only runtime.Error panics count for it",
+                 "journald's Send fails here for lack of a socket after decoding; any return value is accepted",
+                 "a shard whose input runs > 20 s stops and reports inconclusive with the witness path; non-termination is not concluded from wall-clock alone"],
+    require=dict(decoder_calls=1000000, cut_points=10000),
+)
